@@ -45,6 +45,8 @@ def main():
     a = ap.parse_args()
     name = a.name or os.path.basename(os.path.normpath(a.src))
     patch = os.path.join(a.src, "mutation.patch")
+    if not os.path.exists(patch):
+        patch = os.path.join(a.src, "patch.diff")          # re-evaluation from /verif/seeded/<name>
     demo = os.path.join(a.src, "demo.py")
     if not os.path.exists(patch) or not os.path.exists(demo):
         print("missing mutation.patch / demo.py in", a.src)
@@ -120,8 +122,10 @@ def main():
     # ---- 3. store
     dst = os.path.join(VERIF, "seeded", name)
     os.makedirs(dst, exist_ok=True)
-    shutil.copy(patch, os.path.join(dst, "patch.diff"))
-    shutil.copy(demo, os.path.join(dst, "demo.py"))
+    if os.path.abspath(patch) != os.path.abspath(os.path.join(dst, "patch.diff")):
+        shutil.copy(patch, os.path.join(dst, "patch.diff"))
+    if os.path.abspath(demo) != os.path.abspath(os.path.join(dst, "demo.py")):
+        shutil.copy(demo, os.path.join(dst, "demo.py"))
     if notes:
         open(os.path.join(dst, "NOTES.md"), "w").write(notes)
     old = {}
